@@ -73,7 +73,7 @@ m = {
    "guard": "TEMPEST_VERIF",
    "enable": "export TEMPEST_VERIF=1 (set by ./check); tempest/_verif.py emits events only when the guard is set and a sink is registered",
    "baseline_off_cmd": "/verif/tools/baseline_off.py",
-   "source_commits": [],
+   "source_commits": ["bc484fa"],
    "add_only": True,
  },
  "engines": [
